@@ -36,8 +36,13 @@ def build_permuted(T, v, bridge, rng):
             obj.setComponentByName(n, build_permuted(ft, v[n], bridge, rng))
         return obj
     if k in ('SEQUENCEOF',):
-        for x in v:
-            obj.append(build_permuted(T['elem'], x, bridge, rng))
+        if v and rng.random() < 0.6:
+            # fill back to front by position
+            for i in reversed(range(len(v))):
+                obj.setComponentByPosition(i, build_permuted(T['elem'], v[i], bridge, rng))
+        else:
+            for x in v:
+                obj.append(build_permuted(T['elem'], x, bridge, rng))
         if not v:
             obj.clear()
         return obj
@@ -93,6 +98,38 @@ def read_only_uses(val, M):
             pass
 
 
+def mutate(obj, T):
+    k = T['k']
+    try:
+        if k in ('SEQUENCEOF', 'SETOF'):
+            obj.append(obj.componentType.clone(_some_value(T['elem'])))
+        else:
+            for idx, (n, ft, m) in enumerate(T['fields']):
+                c = obj.getComponentByPosition(idx)
+                if ft['k'] in ('SEQUENCEOF', 'SETOF'):
+                    c.append(c.componentType.clone(_some_value(ft['elem'])))
+                elif ft['k'] in ('INTEGER', 'ENUMERATED'):
+                    obj.setComponentByPosition(idx, 99)
+    except Exception:
+        pass
+
+
+def mutate_members(obj, T):
+    k = T['k']
+    try:
+        if k in ('SEQUENCE', 'SET'):
+            for idx, (n, ft, m) in enumerate(T['fields']):
+                if ft['k'] in ('SEQUENCEOF', 'SETOF'):
+                    c = obj.getComponentByPosition(idx)
+                    c.append(c.componentType.clone(_some_value(ft['elem'])))
+    except Exception:
+        pass
+
+
+def _some_value(T):
+    return {'INTEGER': 41, 'OCTETSTRING': b'zz', 'BOOLEAN': True, 'ENUMERATED': 3}.get(T['k'], 1)
+
+
 def chk_histories(T, v, M, rng):
     """C04: equal abstract content => identical DER and CER, whatever the construction history"""
     be, bd, ce, cd, de, dd, error, bridge = M
@@ -119,6 +156,24 @@ def chk_histories(T, v, M, rng):
         variants.append(('after-read-only-uses', used))
     except Exception as e:
         out.append(fail('histories', T, v, 'building a variant raised %s: %s' % (type(e).__name__, str(e)[:150])))
+    # a deep clone is independent of its source: changing the clone leaves the source's bytes alone
+    if T['k'] in x690.CONSTRUCTED:
+        n += 1
+        try:
+            src = bridge.to_value(T, v)
+            cl = src.clone(cloneValueFlag=True)
+            mutate(cl, T)
+            if de.encode(src) != d0:
+                out.append(fail('histories', T, v, 'modifying a deep clone changed the encoding of its source', history='clone-then-modify'))
+            # members read from a value (DEFAULT members are instantiated on read) must not alias the type's defaults
+            src2 = bridge.to_value(T, v)
+            mutate_members(src2, T)
+            fresh = bridge.to_value(T, v)
+            if de.encode(fresh) != d0:
+                out.append(fail('histories', T, v, 'modifying members of one value changed a freshly built equal value '
+                                                    '(shared default?)', history='member-modify'))
+        except Exception as e:
+            pass
     for name, val in variants:
         n += 1
         try:
@@ -174,8 +229,13 @@ def chk_purity(T, v, M, rng):
     s_spec0, s_val0 = snapshot(spec), snapshot(val)
     d0 = e
     # 1. encoding leaves the value and its type alone
+    derived0 = snapshot(spec.clone())
     for name, f in (('ber', lambda: be.encode(val)), ('ber-indef', lambda: be.encode(val, defMode=False)),
-                    ('cer', lambda: ce.encode(val)), ('der', lambda: de.encode(val))):
+                    ('ber-chunked', lambda: be.encode(val, maxChunkSize=1)), ('ber-chunked-spec', lambda: be.encode(
+                        bridge.to_native_py(T, v), asn1Spec=spec, maxChunkSize=1)),
+                    ('cer', lambda: ce.encode(val)), ('der', lambda: de.encode(val)),
+                    ('cer-spec', lambda: ce.encode(bridge.to_native_py(T, v), asn1Spec=spec)),
+                    ('der-spec', lambda: de.encode(bridge.to_native_py(T, v), asn1Spec=spec))):
         n += 1
         try:
             f()
@@ -183,6 +243,9 @@ def chk_purity(T, v, M, rng):
             continue
         if snapshot(spec) != s_spec0:
             out.append(fail('purity', T, v, 'encoding (%s) changed the type object' % name))
+        if snapshot(spec.clone()) != derived0:
+            out.append(fail('purity', T, v, 'after encoding (%s) an object derived from the type differs (tags/constraints '
+                                            'of the type were changed behind its back)' % name))
         try:
             d1 = de.encode(val)
         except Exception as ex:
@@ -377,6 +440,9 @@ def chk_native(T, v, M, rng):
     try:
         py = ne.encode(val)
         back = nd.decode(py, asn1Spec=spec)
+        if not back.isValue:
+            out.append(fail('native', T, v, 'native decoder returned a valueless (schema) object for %r' % (py,),
+                            py=repr(py)[:100]))
         got = x690.norm(T, bridge.from_value(T, back))
         if got != want and not (T['k'] == 'REAL' or 'kind:REAL' in features(T)):
             out.append(fail('native', T, v, 'native round trip differs', got=repr(got)[:200], py=repr(py)[:200]))
@@ -384,11 +450,17 @@ def chk_native(T, v, M, rng):
         if not ('kind:REAL' in features(T) and isinstance(ex, OverflowError)):
             out.append(fail('native', T, v, 'native round trip raised %s: %s' % (type(ex).__name__, str(ex)[:150])))
     # 2. python value tree + schema == value object, for the three codecs
+    trees = []
     try:
-        tree = bridge.to_native_py(T, v)
+        trees.append(('bridge', bridge.to_native_py(T, v)))
     except Exception:
-        return out, n
-    for ename, enc in (('BER', be), ('CER', ce), ('DER', de)):
+        pass
+    try:
+        if 'kind:REAL' not in features(T) and 'kind:BITSTRING' not in features(T):
+            trees.append(('native-encoder', ne.encode(val)))
+    except Exception:
+        pass
+    for (tname, tree), (ename, enc) in itertools.product(trees, (('BER', be), ('CER', ce), ('DER', de))):
         n += 1
         try:
             a = enc.encode(val)
